@@ -412,12 +412,12 @@ Section WithCall.
      a panic inside the callback unwinds through the sort *)
   Definition sort_by_cmp (func a b : value) (st : St) : outcome comparison * St :=
     if is_function func then
-      let '(result_a, st1) := call VNull func [a] st in
+      let '(result_a, st1) := call func func [a] st in
       match result_a with
       | Panic => (Panic, st1)
       | Unmodelled => (Unmodelled, st1)
       | _ =>
-          let '(result_b, st2) := call VNull func [b] st1 in
+          let '(result_b, st2) := call func func [b] st1 in
           match result_b with
           | Panic => (Panic, st2)
           | Unmodelled => (Unmodelled, st2)
@@ -462,7 +462,7 @@ Section WithCall.
     match l with
     | [] => (Ok [], st)
     | x :: rest =>
-        let '(k, st1) := call VNull func [x] st in
+        let '(k, st1) := call func func [x] st in
         match k with
         | Ok kv => let '(more, st2) := keys_of func rest st1 in (omap (cons (kv, x)) more, st2)
         | Panic => (Panic, st1)
@@ -511,7 +511,7 @@ Section WithCall.
     match l with
     | [] => (Ok [], st)
     | item :: rest =>
-        let '(key_result, st1) := call VNull func [item] st in
+        let '(key_result, st1) := call func func [item] st in
         match key_result with
         | Ok (VStr key) =>
             let '(more, st2) := keyed_items func rest st1 in
